@@ -47,11 +47,13 @@ BOUNDS = {
         (2, 160, ("none", "ws", "ws_loud", "cm2", "both", "ws_choice", "cm1"), ("P1", "P2", "P3"), MODS),
         (2, 160, ("ws", "ws_loud", "both"), ("P4", "P5"), MODS),
         (2, 160, ("ws_pairs",), ("P1", "P4"), ("", "@", "!")),
+        (2, 160, ("both_overlap", "cm_nonatomic"), ("P1",), ("", "@", "!")),
         (3, 45, ("ws", "cm2", "both_loud"), ("P1", "P3"), ("", "@", "!")),
     ],
     "thorough": [
         (3, 400, ("none", "ws", "ws_loud", "cm2", "both", "ws_choice", "cm1", "both_loud"), ("P1", "P2", "P3"), MODS),
         (3, 160, ("ws", "ws_loud", "both"), ("P4", "P5"), MODS),
+        (3, 160, ("ws_pairs", "both_overlap", "cm_nonatomic"), ("P1", "P4"), ("", "@", "!")),
         (4, 45, ("ws", "cm2"), ("P1", "P3"), ("", "@")),
     ],
 }
